@@ -557,9 +557,9 @@ def run_decode(ctx: Ctx, shard: int, nshards: int, thorough: bool) -> None:
     sites = sorted(c02.REG)
     mine = sites[shard::nshards]
     for key in mine:
-        enumerate_subject(ctx, c02, c02.REG[key], 12 if thorough else 3, 1 if thorough else 3)
-    hyp_parts(ctx, c02, mine, 400 * len(mine) if thorough else 60 * len(mine),
-              600 * len(mine) if thorough else 90 * len(mine))
+        enumerate_subject(ctx, c02, c02.REG[key], 16 if thorough else 6, 1 if thorough else 2)
+    hyp_parts(ctx, c02, mine, 500 * len(mine) if thorough else 120 * len(mine),
+              800 * len(mine) if thorough else 180 * len(mine))
     if shard == 1 % nshards:
         cells(ctx, thorough)
     if shard == 2 % nshards:
